@@ -166,7 +166,8 @@ pub fn sweep(prop: &str, seed: u64, n: u64, stride: u64, threads: usize, dir: &s
                         Some(c) => c,
                         None => continue,
                     };
-                    if case.kind == "multi" || !pipe_expressible(&case.scn) {
+                    // (the size families are about time and memory, with files of megabytes: not here)
+                    if case.kind == "multi" || case.kind == "scaling" || case.kind == "parser" || !pipe_expressible(&case.scn) {
                         continue;
                     }
                     s.sessions += 1;
